@@ -79,8 +79,8 @@ Fixpoint pairs_of (l : list bytes) : list (bytes * bytes) :=
 Definition rename_map (l : list bytes) : record := fold_left (fun m p => put (fst p) (snd p) m) (pairs_of l) [].
 
 (* transformWithoutRegexes walks the live linked list: at entry (k,v) with k -> n in the map it calls
-   Mlrmap.Rename(k, n): if no field n exists the key is rewritten in place; if a field n exists anywhere in the
-   record (possibly the entry itself when n = k) that field's value becomes v and the walked entry is unlinked;
+   Mlrmap.Rename(k, n): n = k is a no-op; if no field n exists the key is rewritten in place; if a field n exists
+   anywhere in the record that field's value becomes v and the walked entry is unlinked;
    the walk continues with the entry that followed. *)
 Fixpoint rename_walk (fuel : nat) (m : record) (done rest : record) : record :=
   match fuel with
@@ -92,7 +92,8 @@ Fixpoint rename_walk (fuel : nat) (m : record) (done rest : record) : record :=
       match get k m with
       | None => rename_walk fuel' m (done ++ [(k, v)]) t
       | Some n =>
-        if has n (done ++ (k, v) :: t)
+        if beqb k n then rename_walk fuel' m (done ++ [(k, v)]) t      (* Rename(a, a): no-op *)
+        else if has n (done ++ (k, v) :: t)
         then rename_walk fuel' m (setv n v done) (setv n v t)
         else rename_walk fuel' m (done ++ [(n, v)]) t
       end
